@@ -162,8 +162,12 @@ static const char* inc_cb(const char* name, const char* cur, const char* ns, voi
 }
 static void inc_free(const char* p, void* user) { free((void*) p); }
 
+uint8_t g_stack_junk = 0;
+// what an earlier call left on the stack is one more thing a saved image must not depend on
+__attribute__((noinline)) static void dirty_stack(uint8_t b) { if (!b) return; volatile uint8_t junk[24576]; for (size_t i = 0; i < sizeof junk; i++) junk[i] = b; }
 CompileResult compile_rules(const CompileSpec& spec) {
   CompileResult res;
+  dirty_stack(g_stack_junk);
   YR_COMPILER* c = NULL;
   res.rc = yr_compiler_create(&c);
   if (res.rc != ERROR_SUCCESS) return res;
@@ -172,6 +176,7 @@ CompileResult compile_rules(const CompileSpec& spec) {
   if (!spec.includes.empty()) yr_compiler_set_include_callback(c, inc_cb, inc_free, &ctx);
   for (auto& e : spec.externals) {
     int rc = ERROR_SUCCESS;
+    dirty_stack(g_stack_junk);
     if (e.type == 'i') rc = yr_compiler_define_integer_variable(c, e.id.c_str(), e.i);
     else if (e.type == 'b') rc = yr_compiler_define_boolean_variable(c, e.id.c_str(), (int) e.i);
     else if (e.type == 'f') rc = yr_compiler_define_float_variable(c, e.id.c_str(), e.f);
